@@ -674,7 +674,7 @@ func runC19(c *Ctx) {
 		case "s":
 			return "s" + hx([]byte(gen.Pick(r, strs)))
 		case "n":
-			return fmt.Sprintf("n%d", gen.Pick(r, []int{0, 1, 7, 42, 65536, -3}))
+			return fmt.Sprintf("n%d", gen.Pick(r, []int{0, 1, 7, 42, 65536, -3, 4294967296, 9007199254740992, 9007199254740993, 9223372036854775807, -9223372036854775808, -9007199254740993}))
 		case "b":
 			return gen.Pick(r, []string{"b0", "b1"})
 		}
